@@ -5,6 +5,7 @@ import OpcuaModel.Model.Limits
     xfer <c2s|s2c> <hello: rcv snd maxMsg maxChunks> <ack: rcv snd maxMsg maxChunks> <n>
       → neg <client view> | <server view> open ok wire <count> <max> <last> send <sent|refused> recv <verdict>
       → neg <client view> | <server view> open refused-by-<server|client> <verdict> opn <wire> <body>
+      → handshake refused-by-client      (Acknowledge with a buffer below 8192)
   policy None / mode None, as in the correspondence run; `xfer-sign …` is the same under
   Basic256Sha256 / Sign (no OpenSecureChannel model: the runner only uses configurations that open).
 -/
@@ -24,6 +25,7 @@ def nats (l : List String) : Option (List Nat) := l.mapM (·.toNat?)
 def handleSign (dir : String) (rest : List String) : String :=
   match nats rest, Gen.symmetricRows.find? (·.name == "Basic256Sha256") with
   | some [c1, c2, c3, c4, s1, s2, s3, s4, n], some a =>
+    if !handshakeAccepts ⟨s1, s2, s3, s4⟩ then "handshake refused-by-client" else
     let vs := negotiate ⟨c1, c2, c3, c4⟩ ⟨s1, s2, s3, s4⟩
     let pre := s!"neg {showAck vs.client} | {showAck vs.server}"
     let sides : Option (Ack × Ack) :=
@@ -46,6 +48,7 @@ def handle : List String → String
     | some [c1, c2, c3, c4, s1, s2, s3, s4, n] =>
       let hello : Ack := ⟨c1, c2, c3, c4⟩
       let ack : Ack := ⟨s1, s2, s3, s4⟩
+      if !handshakeAccepts ack then "handshake refused-by-client" else
       let vs := negotiate hello ack
       let pre := s!"neg {showAck vs.client} | {showAck vs.server}"
       match openChannel vs with
